@@ -558,7 +558,9 @@ Definition on_reply (st : pst) (s : nat) (ty : N) (rsp : bytes) : result pst :=
                     | Hang => RHang (bs "merge")
                     | Fine None => ROk st0
                     | Fine (Some sm') =>
-                        if is_auth_failure ty then RShutdown
+                        (* an authentication failure answering a client's request is that client's error;
+                           it is fatal only as the answer to the handshake (connection still initializing) *)
+                        if (is_auth_failure ty && ps_initializing sv)%bool then RShutdown
                         else
                           let st1 := set_msg st0 mid {| pm_client := pm_client m; pm_sm := sm'; pm_reqs := pm_reqs m; pm_seq := pm_seq m; pm_moved := pm_moved m; pm_route := pm_route m |} in
                           match lookup (pm_client m) (clients st1) with
